@@ -503,3 +503,9 @@ func Register(name string, p Program) { registry[name] = p }
 
 // Lookup finds a registered program.
 func Lookup(name string) Program { return registry[name] }
+
+// After runs f and returns v: an argument expression with a side effect.
+func After[T any](v T, f func()) T {
+	f()
+	return v
+}
